@@ -40,6 +40,14 @@ CHECKS['C20'] = dict(
          'every path model and on ~300 concrete inputs per run); logging statements skipped; tolerance n*2^-52 for "equals one".',
     design='DESIGN.md section 2 C20')
 
+CHECKS['C17'] = dict(
+    technique='bounded symbolic execution (z3, own executor) over selection/presence variables of the configuration, oracle = independent rule statement',
+    text='Every combination of selected environment spelling, platform, presence of the named/package environment on either platform, '
+         'DEFAULTS list, launch-environment contents and interpreter flag within the bound is executed on the real '
+         'environmentForNode and compared with an independent statement of the documented rules; exhaustive within the bound.',
+    note='os.environ replaced by the symbolic launch environment; values are fixed tokens (no symbolic strings).',
+    design='DESIGN.md section 2 C17')
+
 NOT_APPLICABLE = {
     'C07': 'round trip through the real file system, PyYAML (C) and Experiment construction: nothing on the path can be made symbolic; the technique would degenerate to example testing',
     'C15': 'quantifies over processes with different hash seeds / directory listing orders, which are not values inside one symbolic execution',
